@@ -129,9 +129,25 @@ def is_ident(k):
         "or", "repeat", "return", "then", "true", "until", "while", "continue", "type", "export")
 
 
+class Datetime:
+    """a TOML date / time / datetime: darklua gives the table { ["$__toml_private_datetime"] = "<text>" }"""
+    KEY = "$__toml_private_datetime"
+
+    def __init__(self, text):
+        self.text = text
+
+
+def special_float(v):
+    return isinstance(v, float) and (v != v or v in (float("inf"), float("-inf")))
+
+
 def to_lua(doc):
     if doc is None:
         return "nil"
+    if isinstance(doc, Datetime):
+        return "{[%s] = %s}" % (lua_string(Datetime.KEY), lua_string(doc.text))
+    if special_float(doc):
+        return "(0/0)" if doc != doc else ("(1/0)" if doc > 0 else "(-1/0)")
     if doc is True:
         return "true"
     if doc is False:
@@ -195,16 +211,20 @@ def to_yaml(doc):
     return json.dumps(doc) + "\n"
 
 
-def toml_value(v):
+def toml_value(v, k=0):
     if isinstance(v, bool):
         return "true" if v else "false"
+    if isinstance(v, Datetime):
+        return v.text
+    if special_float(v):
+        return ["nan", "+nan", "-nan"][k % 3] if v != v else (["inf", "+inf"][k % 2] if v > 0 else "-inf")
     if isinstance(v, (int, float)):
         return repr(v)
     if isinstance(v, str):
         return json.dumps(v)
     if isinstance(v, list):
-        return "[" + ", ".join(toml_value(x) for x in v) + "]"
-    return "{ " + ", ".join("%s = %s" % (k if is_ident(k) else json.dumps(k), toml_value(x)) for k, x in v.items()) + " }"
+        return "[" + ", ".join(toml_value(x, i) for i, x in enumerate(v)) + "]"
+    return "{ " + ", ".join("%s = %s" % (kk if is_ident(kk) else json.dumps(kk), toml_value(x, i)) for i, (kk, x) in enumerate(v.items())) + " }"
 
 
 def to_toml(doc):
@@ -214,12 +234,12 @@ def to_toml(doc):
         if isinstance(v, dict) and v:
             tables.append((key, v))
         else:
-            lines.append("%s = %s" % (key, toml_value(v)))
+            lines.append("%s = %s" % (key, toml_value(v, len(lines))))
     for key, v in tables:
         lines.append("")
         lines.append("[%s]" % key)
         for kk, x in v.items():
-            lines.append("%s = %s" % (kk if is_ident(kk) else json.dumps(kk), toml_value(x)))
+            lines.append("%s = %s" % (kk if is_ident(kk) else json.dumps(kk), toml_value(x, len(lines))))
     return "\n".join(lines) + "\n"
 
 
@@ -290,9 +310,20 @@ def doc_probes(doc, acc):
                 walk(v, e + index_expr(k))
         elif isinstance(d, list):
             out.append("type(%s)" % e)
+            if None not in d:
+                out.append("#%s" % e)          # unambiguous: no hole
             for i, v in enumerate(d):
                 walk(v, e + "[%d]" % (i + 1))
             out.append("%s[%d]" % (e, len(d) + 1))
+        elif isinstance(d, Datetime):
+            out.append("nkeys(%s)" % e)
+            out.append("%s[%s]" % (e, lua_string(Datetime.KEY)))
+        elif special_float(d):
+            # observed by comparison: x == 1/0, x == -1/0, x ~= x (NaN), and its type
+            out.append("type(%s)" % e)
+            out.append("(%s == 1/0)" % e)
+            out.append("(%s == -1/0)" % e)
+            out.append("(%s ~= %s)" % (e, e))
         else:
             out.append(e)
     walk(doc, acc)
@@ -302,6 +333,22 @@ def doc_probes(doc, acc):
 DATA_FORMATS = ["json", "json5", "yaml", "yml", "toml", "txt"]
 
 
+def toml_specials_doc(rnd, marker):
+    """TOML 1.0 special floats (inf, +inf, -inf, nan), also in arrays and tables; dates and times;
+    integers that binary64 cannot hold exactly"""
+    inf, nan = float("inf"), float("nan")
+    doc = {"_p": marker, "pinf": inf, "ninf": -inf, "notnum": nan,
+           "values": rnd.choice([[1.0, inf, 2.5], [inf, -inf], [nan, 1.5, inf], [0.5, -inf, nan, 4.0]]),
+           "big": rnd.choice([9007199254740993, 9223372036854775807, 4503599627370497 * 4 + 1]),
+           "neg": rnd.choice([-9223372036854775808, -9007199254740993]),
+           "when": Datetime(rnd.choice(["1979-05-27T07:32:00Z", "1979-05-27T00:32:00-07:00", "1979-05-27T07:32:00.999"])),
+           "day": Datetime("1979-05-27"), "clock": Datetime("07:32:00"),
+           "t": {"x": rnd.choice([-inf, inf, nan]), "arr": rnd.choice([[nan, 1.5], [1.0, inf]]), "plain": 2.5,
+                 "dates": [Datetime("2000-01-01"), Datetime("2000-01-02")]},
+           "inl": {"deep": {"v": inf, "w": [nan]}}}
+    return doc
+
+
 def make_data(rnd, fmt, path, holes=None):
     """(file text, python value) - the value a require of the file must give.
     holes: None | "map" | "array" - a document made of sequences with interior nulls"""
@@ -309,6 +356,16 @@ def make_data(rnd, fmt, path, holes=None):
     if fmt == "txt":
         text = marker + rnd.choice(["", "\nsecond line", " \"q\" ]] \\ tail", "\n"])
         return text, text
+    if holes == "toml-specials":
+        doc = toml_specials_doc(rnd, marker)
+        return to_toml(doc), doc
+    if holes == "json5-nonfinite":
+        doc = {"_p": marker, "a": float("inf"), "b": [1, float("-inf")], "c": float("nan")}
+        return '{ _p: "%s", a: Infinity, b: [1, -Infinity], c: NaN }\n' % marker, doc
+    if holes == "yaml-specials":
+        doc = {"_p": marker, "a": float("inf"), "b": float("-inf"), "c": float("nan"), "d": [1, float("inf"), 2.5],
+               "e": 9007199254740993, "f": 18446744073709551615}
+        return '_p: "%s"\na: .inf\nb: -.inf\nc: .nan\nd: [1, .inf, 2.5]\ne: 9007199254740993\nf: 18446744073709551615\n' % marker, doc
     doc = holes_doc(rnd, marker, holes == "array") if holes else gen_doc(rnd, fmt, marker)
     if fmt == "json":
         return json.dumps(doc, indent=rnd.choice([None, 1])), doc
@@ -901,6 +958,162 @@ def layout_project(rnd, mode, paths, adj, vtypes=None):
     return proj
 
 
+LUA_KEYWORDS = ["and", "break", "do", "else", "elseif", "end", "false", "for", "function", "if", "in", "local", "nil", "not",
+                "or", "repeat", "return", "then", "true", "until", "while"]
+NAME_ALPHABET = "abcdefghijklmnopqrstuvwxyzABCDEFGHIJKLMNOPQRSTUVWXYZ_0123456789"
+
+
+def raw_name(n):
+    """n-th string of the permutator (bijective base 63), as Model/Rename.v nth_raw"""
+    out = []
+    while True:
+        if n < 63:
+            out.append(NAME_ALPHABET[n])
+            break
+        out.append(NAME_ALPHABET[n % 63])
+        n = n // 63 - 1
+    return "".join(reversed(out))
+
+
+def modules_needed_to_reach(word):
+    """how many bundled modules make an unchecked name generator hand out `word`: 1 + the number of
+    valid names before it"""
+    n, valid = 0, 0
+    while True:
+        name = raw_name(n)
+        if name == word:
+            return valid + 1
+        if not name[0].isdigit() and name not in LUA_KEYWORDS and name != "cache":
+            valid += 1
+        n += 1
+
+
+def wide_project(rnd, mode, width):
+    """one entry requiring `width` tiny modules that all use one shared leaf: the bundler has to hand out
+    more than 53 accessor names (all one-letter names, then two-letter ones; digits first and keywords
+    must be skipped)"""
+    proj = {"mode": mode, "features": {"wide:%d" % width}, "files": {}, "nested": False, "excludes": [], "excluded": [],
+            "shared": True, "wide": width}
+    files = proj["files"]
+    files["src/leaf.lua"] = 'local _P = "@@src/leaf.lua"\nlocal n = 0\nreturn { inc = function() n = n + 1 return n end }\n'
+    graph = {"src/leaf.lua": ("lua", [], 1)}
+    rtab = {"src/main.lua": {"./leaf": "src/leaf.lua"}}
+    lines = ["local t = {}"]
+    roots = []
+    for i in range(1, width + 1):
+        path = "src/w/m%d.%s" % (i, "luau" if i % 7 == 0 else "lua")
+        lit_leaf = "../leaf" if i % 2 else "../leaf.lua"
+        files[path] = 'local _P = "@@%s"\nreturn { i = %d, n = require("%s").inc() }\n' % (path, i, lit_leaf)
+        graph[path] = ("lua", ["src/leaf.lua"], 1)
+        rtab[path] = {lit_leaf: "src/leaf.lua"}
+        lit = "./w/m%d" % i if i % 3 else "./w/" + posixpath.basename(path)
+        rtab["src/main.lua"][lit] = path
+        lines.append("t[%d] = require(%s)" % (i, lua_string(lit)))
+        roots.append(path)
+    lines.append('local leaf = require("./leaf")')
+    roots.append("src/leaf.lua")
+    lines.append("local sum = 0")
+    lines.append("for i = 1, #t do sum = sum + t[i].i * i + t[i].n end")
+    lines.append("ext_p(#t, sum, t[1].i, t[%d].i, t[%d].n, leaf.inc())" % (min(54, width), width))
+    files["src/main.lua"] = "\n".join(lines) + "\n"
+    graph["src/main.lua"] = ("lua", roots, None)
+    proj["entry"] = "src/main.lua"
+    proj["graph"], proj["roots"] = graph, roots
+    out = [REFERENCE_PRELUDE]
+    for path in files:
+        out.append("__R[%s] = { %s }" % (lua_string(path), ", ".join("[%s] = %s" % (lua_string(k), lua_string(v))
+                                                                       for k, v in sorted(rtab.get(path, {}).items()))))
+    for path, text in files.items():
+        if path != "src/main.lua":
+            out.append("__M[%s] = function(...) local require = __mkreq(%s)\n%s\nend" % (lua_string(path), lua_string(path), text))
+    out.append('local require = __mkreq("src/main.lua")')
+    out.append(files["src/main.lua"])
+    proj["reference"] = "\n".join(out)
+    proj["modules"] = width + 1
+    return proj
+
+
+def semicolon_project(rnd, mode, entry_long, seq):
+    """modules (and the entry) whose last statements carry a `;` followed by a comment: `return x; -- c`,
+    `return r;` inside functions, `break;` inside loops; the entry is much shorter or much longer than
+    the modules. proj["tags"]: comment tags that follow a `;` - each must be written once by retain_lines"""
+    proj = {"mode": mode, "features": {"semicolon-after-last-statement", "entry-%s-than-modules" % ("longer" if entry_long else "shorter")},
+            "files": {}, "nested": True, "excludes": [], "excluded": [], "shared": True, "tags": []}
+    tagn = [0]
+
+    def tag():
+        tagn[0] += 1
+        t = "--~s%d.%d~" % (seq, tagn[0])
+        proj["tags"].append(t)
+        return t
+
+    def module(path, deps, long):
+        L = ["-- module %s" % path] if long else []
+        L.append('local _P = "@@%s"; %s' % (path, tag()))
+        L.append("local n = 0")
+        sites = []
+        for k, (lit, tgt) in enumerate(deps):
+            L.append("local d%d = require(%s); %s" % (k, lua_string(lit), tag()))
+            sites.append(tgt)
+        if long:
+            L += ["local function first(t)", "  local r", "  for i = 1, #t do", "    r = t[i]",
+                  "    if i >= 2 then break; %s" % tag(), "    end", "  end", "  return r; %s" % tag(), "end",
+                  "while true do n = n + 1 break; end", "repeat n = n + 1 if n > 1 then break; %s" % tag(), " end until true",
+                  "local function nothing() return; %s" % tag(), "end", "nothing()"]
+            for j in range(rnd.randint(3, 12)):
+                L.append("-- padding line %d of %s" % (j, path))
+            value = "{ v = first({ 5, 6, 7 }) + n, n = function() n = n + 1 return n end%s }" % "".join(
+                ", d%d = d%d" % (k, k) for k in range(len(deps)))
+        else:
+            value = rnd.choice(["7", '"s"', "false"]) if not deps else "{ v = 1%s }" % "".join(", d%d = d%d" % (k, k) for k in range(len(deps)))
+        L.append("return %s; %s" % (value, tag()))
+        if long and rnd.random() < 0.5:
+            L.append("-- after the return of %s" % path)
+        return "\n".join(L) + ("\n" if rnd.random() < 0.7 else ""), sites
+
+    files, graph = proj["files"], {}
+    leaf_long = not entry_long
+    files["src/lib/leaf.lua"], s0 = module("src/lib/leaf.lua", [], leaf_long)
+    files["src/mid.lua"], s1 = module("src/mid.lua", [("./lib/leaf", "src/lib/leaf.lua")], not entry_long)
+    files["src/other.luau"], s2 = module("src/other.luau", [("./lib/leaf.lua", "src/lib/leaf.lua"), ("./mid", "src/mid.lua")], not entry_long)
+    graph["src/lib/leaf.lua"], graph["src/mid.lua"], graph["src/other.luau"] = ("lua", s0, 1), ("lua", s1, 1), ("lua", s2, 1)
+    if entry_long:
+        E = ["-- entry", 'local a = require("./mid"); %s' % tag(), 'local b = require("./other"); %s' % tag(), "local acc = 0",
+             "for i = 1, 5 do", "  acc = acc + i", "  if i == 3 then break; %s" % tag(), "  end", "end",
+             "local function pick(x) if x then return x.v; %s" % tag(), " end return 0; end"]
+        for j in range(rnd.randint(10, 25)):
+            E.append("-- entry padding %d" % j)
+        E += ["ext_p(pick(a), pick(b), acc, tostring(b.d0 == a.d0), type(b.d1)); %s" % tag(), "return acc; %s" % tag()]
+        roots = ["src/mid.lua", "src/other.luau"]
+        files["src/main.lua"] = "\n".join(E) + "\n"
+    else:
+        style = seq % 3
+        if style == 0:
+            files["src/main.lua"] = 'ext_p(require("./other").v, require("./mid").n());'
+        elif style == 1:
+            files["src/main.lua"] = 'local o = require("./other"); ext_p(o.v, require("./mid").n()); return o.v; %s' % tag()
+        else:
+            files["src/main.lua"] = 'return require("./other").v + require("./mid").n(); %s\n' % tag()
+        roots = ["src/other.luau", "src/mid.lua"]
+    graph["src/main.lua"] = ("lua", roots, None)
+    proj["entry"] = "src/main.lua"
+    proj["graph"], proj["roots"] = graph, roots
+    rtab = {"src/main.lua": {"./mid": "src/mid.lua", "./other": "src/other.luau"}, "src/mid.lua": {"./lib/leaf": "src/lib/leaf.lua"},
+            "src/other.luau": {"./lib/leaf.lua": "src/lib/leaf.lua", "./mid": "src/mid.lua"}, "src/lib/leaf.lua": {}}
+    out = [REFERENCE_PRELUDE]
+    for path in files:
+        out.append("__R[%s] = { %s }" % (lua_string(path), ", ".join("[%s] = %s" % (lua_string(k), lua_string(v))
+                                                                       for k, v in sorted(rtab[path].items()))))
+    for path, text in files.items():
+        if path != "src/main.lua":
+            out.append("__M[%s] = function(...) local require = __mkreq(%s)\n%s\nend" % (lua_string(path), lua_string(path), text))
+    out.append('local require = __mkreq("src/main.lua")')
+    out.append(files["src/main.lua"])
+    proj["reference"] = "\n".join(out)
+    proj["modules"] = 3
+    return proj
+
+
 def data_holes_project(rnd, mode, fmt, holes):
     """the entry and a module require a data file whose sequences have nulls that are not last; the
     entry reads every index"""
@@ -914,6 +1127,8 @@ def data_holes_project(rnd, mode, fmt, holes):
         proj["files"][m.path] = ""
     for m in (mods[1], mods[3]):
         m.text, m.doc = make_data(rnd, m.path.rsplit(".", 1)[1], m.path, holes if m.idx == 1 else rnd.choice(["map", "array"]))
+        if m.idx == 1 and holes in ("toml-specials", "json5-nonfinite", "yaml-specials"):
+            proj["features"].add("data-" + holes)
         proj["files"][m.path] = m.text
     proj["files"][mods[2].path] = lua_module_text(proj, rnd, mods[2], mods)
     proj["files"][mods[0].path] = entry_text(proj, rnd, mods[0], mods)
